@@ -1080,8 +1080,8 @@ def install(I):
         """torch.distributions.Categorical(probs | logits of shape (*batch, M)).sample(size): integers in [0, M) of shape
         (*size, *batch) (assumed contract); the draw itself is a fresh uninterpreted leaf"""
 
-        def __init__(self, p):
-            self.p = p
+        def __init__(self, p, kind="probs"):
+            self.p, self.kind = p, kind
 
         def __vf_getattr__(self, I_, attr):
             if attr == "sample":
@@ -1090,11 +1090,11 @@ def install(I):
                     t = leaf(I, "categorical_draw", dims, "long")
                     ks = [z3.Int(I.path.fresh_name("k_cd")) for _ in dims]
                     I.path.assume(z3.ForAll(ks, z3.And(t.elem(ks) >= 0, t.elem(ks) < to_z3(self.p.shape[-1])), patterns=[t.elem(ks)]))
-                    I.__dict__.setdefault("categorical_draws", []).append((t, self.p))
+                    I.__dict__.setdefault("categorical_draws", []).append((t, self.p, self.kind))
                     return t
                 return BoundBuiltin(sample)
             raise Unsupported(f"Categorical.{attr}")
-    ext["torch.distributions.Categorical"] = lambda I, a, k: CategoricalDist(k.get("probs", k.get("logits", a[0] if a else None)))
+    ext["torch.distributions.Categorical"] = lambda I, a, k: (CategoricalDist(k["logits"], "logits") if k.get("logits") is not None else CategoricalDist(k.get("probs", a[0] if a else None), "probs"))
     ext["torch.allclose"] = lambda I, a, k: z3.Bool(I.path.fresh_name("allclose"))
     ext["torch.ones"] = lambda I, a, k: Tensor(list(B.iterate(I, a[0])) if a and not is_intlike(a[0]) else [x for x in a], lambda idx: z3.RealVal(1), "float")
 
